@@ -308,6 +308,16 @@ def check_one(case, ex, path, I, label, c, res, known_active, confirmed_known, t
         if r == 'unsat':
             res['discharged'] += 1
             return
+        if r == 'unknown' and getattr(path, 'heavy', None):
+            # retry without the defining equations of the square roots (fewer hypotheses: `unsat` is still a proof)
+            for keep_unlinked in (False, True):
+                # second attempt: keep the equations of roots that no multiplicative law mentions
+                light = [c for c in path.pc if c.get_id() not in path.heavy or (keep_unlinked and path.heavy[c.get_id()] not in path.sqrt_linked)]
+                r2, _ = ex.solver_check(light + cs, want_model=False)
+                if r2 == 'unsat':
+                    res['discharged'] += 1
+                    res['relaxed'] = res.get('relaxed', 0) + 1
+                    return
         if r == 'unknown':
             res['inconclusive'].append({'reason': 'solver-unknown', 'label': label})
             return
